@@ -7,7 +7,7 @@ use crate::sut::{self, Cfg, WireReq};
 use refmodel::sign::{build, Carrier, Plan};
 use serde_json::json;
 
-const VALS: [&[u8]; 10] = [b"v", b" v", b"v ", b"a  b", b"a b", b"", b"a,b", b"\xe9", b"\"a  b\"", b"a\tb"];
+const VALS: [&[u8]; 12] = [b"v", b" v", b"v ", b"a  b", b"a b", b"", b"a,b", b"\xe9", b"\"a  b\"", b"a\tb", b"\tv\t", b"a\t\tb"];
 
 fn value_lists() -> Vec<Vec<&'static [u8]>> {
     let mut out: Vec<Vec<&'static [u8]>> = vec![vec![]];
@@ -329,7 +329,7 @@ pub fn run(ctx: &Ctx) -> Report {
     Report {
         stats: st,
         rule: format!(
-            "{} base requests: x-a with every list of 0..2 values over 10 values (spaces outside/inside, empty, comma, 0xE9, quoted, tab) x x-b (none, one, two values) x content-type (absent/present) x every signed subset of {{x-a, x-b, content-type, x-amz-date}} x 3 arrival orders x 3 name-case styles, header carrier and (1 in 5) query carrier; (1) accepted, canonical request bytes equal to the reference's; (2) on every {} base, every single edit of a signed header (insertion of 4 bytes at every position, deletion and 3 substitutions at every position, value added/removed, two values swapped, value moved to another signed name) with the old signature: Ok iff the reference header block is unchanged; (3) every insertion position of an unsigned header, removal/modification/extra value of every unsigned one, every rotation of the header groups: identical outcome; the same insertions on {} refused bases. states = distinct reference canonical requests",
+            "{} base requests: x-a with every list of 0..2 values over 12 values (spaces outside/inside, empty, comma, 0xE9, quoted, inner/outer/double tabs) x x-b (none, one, two values) x content-type (absent/present) x every signed subset of {{x-a, x-b, content-type, x-amz-date}} x 3 arrival orders x 3 name-case styles, header carrier and (1 in 5) query carrier; (1) accepted, canonical request bytes equal to the reference's; (2) on every {} base, every single edit of a signed header (insertion of 4 bytes at every position, deletion and 3 substitutions at every position, value added/removed, two values swapped, value moved to another signed name) with the old signature: Ok iff the reference header block is unchanged; (3) every insertion position of an unsigned header, removal/modification/extra value of every unsigned one, every rotation of the header groups: identical outcome; the same insertions on {} refused bases. states = distinct reference canonical requests",
             n_bases, if edit_stride == 1 { "" } else { "third" }, n_ref
         ),
         bounds: json!({"bases": n_bases, "edit_stride": edit_stride}),
